@@ -95,6 +95,14 @@ CLAIMED = {
             "sequence by induction only for the observed attributes); registries _variants/_subclasses whitelisted",
             "contract-based deductive verification of result contracts (z3) + labelled bounded history enumeration",
             "DESIGN.md section 4 C15"),
+    'C18': ("Argument-packing contract of NullServer's _FunctionCall.__call__ proved with symbolic argument values for 0..3 "
+            "arguments and every positional/keyword call form (the user function receives exactly the given values, incl. "
+            "falsy ones; the call returns what the function returned). Result unwrapping checked relationally (bounded, "
+            "labelled): 22 calls over 12 signatures and all body styles compared with the same call over the JsonDocument "
+            "wire path decoded by the documented conventions; auxiliary-method interplay.",
+            "wire side compared through JsonDocument only (XmlDocument/Soap11 wire decoding is C01's)",
+            "contract-based deductive verification of the packing loop (z3) + labelled bounded relational comparison",
+            "DESIGN.md section 4 C18"),
 }
 NOT_YET = {}
 for i in range(1, 19):
